@@ -13,15 +13,24 @@ from .. import chartgen as cg
 from ..steplib import Inst, micro_summary
 
 ID = 'C04'
+B, C, O = cg.BASIC, cg.COMPOUND, cg.ORTH
+TEMPLATES = {
+    # root||{p||{p1,p2}, q{a}}: nested orthogonal states, three sources at the same depth in two outer regions
+    'TQ': {'N': 6, 'par': [-1, 0, 1, 1, 0, 4], 'kind': [O, O, B, B, C, B]},
+    # root||{p||{p1{x},p2}, q{a}}: the same with unequal depths
+    'TQ2': {'N': 7, 'par': [-1, 0, 1, 2, 1, 0, 5], 'kind': [O, O, C, B, B, C, B]},
+}
 LEVELS = {
     'quick': [
         {'name': 'L1-N3-M3', 'N': 3, 'M': 3, 'namings': ['id'], 'budget_s': 100},
         {'name': 'L2-N4-M2', 'N': 4, 'M': 2, 'namings': ['rev'], 'budget_s': 100},
+        {'name': 'L3-TQ-M3', 'templates': ['TQ'], 'M': 3, 'namings': ['id', 'rev'], 'evented': 1, 'budget_s': 90},
     ],
     'thorough': [
         {'name': 'L1-N3-M3', 'N': 3, 'M': 3, 'namings': ['id', 'rev'], 'budget_s': 300},
         {'name': 'L2-N4-M3', 'N': 4, 'M': 3, 'namings': ['id'], 'budget_s': 1500},
         {'name': 'L3-N5-M2', 'N': 5, 'M': 2, 'namings': ['mix'], 'budget_s': 900},
+        {'name': 'L4-TQ2-M3', 'templates': ['TQ2'], 'M': 3, 'namings': ['id', 'rev', 'mix'], 'evented': 1, 'budget_s': 900},
     ],
 }
 WITNESSES = ['nondeterminism_reported', 'conflict_reported', 'parallel_ok', 'same_source_pair',
@@ -35,6 +44,12 @@ OUTSIDE = ['charts above the N/M bound of the completed level', 'history/final s
 
 
 def shards(level):
+    if 'templates' in level:
+        out = []
+        for name in level['templates']:
+            out.extend(dict(sh, template=name) for sh in cg.split_shards([dict(TEMPLATES[name])], level['M'], nevents=1,
+                                                                          evented_only=bool(level.get('evented'))))
+        return out
     sk = cg.skeletons(level['N'], [cg.BASIC, cg.COMPOUND, cg.ORTH])
     return cg.split_shards(sk, level['M'], nevents=1)
 
@@ -43,7 +58,8 @@ def expand(job, level):
     if 'chart' in job:
         yield job['chart']
         return
-    yield from cg.charts(job['skel'], level['M'], nevents=1, targets='free', fix=job.get('fix'))
+    yield from cg.charts(job['skel'], level['M'], nevents=1, targets='free', fix=job.get('fix'),
+                         evented_only=bool(level.get('evented')))
 
 
 def canary_job():
